@@ -1,11 +1,11 @@
 """Regenerate every Gen module from /repo's working tree."""
 import json, sys
-import tr_common, tr_variant
+import tr_common, tr_variant, tr_preproc
 
 
 def main():
     report = {}
-    steps = [tr_variant.extract_variant, tr_variant.extract_ucd]
+    steps = [tr_variant.extract_variant, tr_variant.extract_ucd, tr_preproc.extract_preproc]
     for s in steps:
         try:
             s(report)
